@@ -118,7 +118,8 @@ def check_payload(ctx, flavour, spec, ev, detail):
         if target in ("addError", "addFailure", "addExpectedFailure"):
             err = p.get("err")
             if name == "addUnexpectedSuccess":
-                ok, why = err is not None and err[0] == "AssertionError", "uxsuccess not degraded to a failure exception"
+                ok, why = (err is not None and err[0] == ("Strict" if spec.get("kind") == "strictfail" else "AssertionError"),
+                           "uxsuccess not degraded to the test's failure exception")
             elif form == "exc":
                 ok, why = err == ("ValueError", spec["token"]), "exc_info differs"
             else:
@@ -294,7 +295,14 @@ def x_holder(ctx, case):
         details["traceback"] = text_content("STALE-traceback-of-an-earlier-attempt")
     if case["extra"]:
         details["log"] = text_content("<<HL>>")
-    holder = testtools.ErrorHolder("holder.id", error=exc_info, details=details or None)
+    if case.get("tagged"):
+        # built from a working set the caller goes on using (replaying a log): the holder reports the tags it was GIVEN
+        working = {"ht"}
+        holder = testtools.PlaceHolder("holder.id", details=details or None, outcome="addError", error=exc_info, tags=working)
+        working.clear()
+        working.add("callers-next-tag")
+    else:
+        holder = testtools.ErrorHolder("holder.id", error=exc_info, details=details or None)
     top.startTestRun()
     holder.run(top)
     top.stopTestRun()
@@ -311,6 +319,10 @@ def x_holder(ctx, case):
                 text = got.get("traceback", b"")
                 ok = (b"<<HX>>" in text and b"STALE" not in b"".join(got.values())
                       and (not case["extra"] or got.get("log") == b"<<HL>>"))
+                if case.get("tagged"):
+                    tg = p.get("tags") or ()
+                    ctx.check("ht" in tg and "callers-next-tag" not in tg, "leaf.tags-and-time-forwarded",
+                              lambda: {"flavour": flavour, "the holder was built with": ["ht"], "observed with its outcome": sorted(tg), **detail()})
             else:
                 err = p.get("err")
                 text = (err[1] if err else "").encode("utf8", "replace")
@@ -324,6 +336,9 @@ def x_holder(ctx, case):
             got = {n: v[1] for n, v in (calls[0]["details"] or {}).items()}
             ok = (b"<<HX>>" in got.get("traceback", b"") and b"STALE" not in b"".join(got.values())
                   and (not case["extra"] or got.get("log") == b"<<HL>>"))
+        if ok and case.get("tagged"):
+            tg = calls[0].get("tags") or ()
+            ok = "ht" in tg and "callers-next-tag" not in tg
         seen += 1
         ctx.check(ok, "tbt.callback-fields", lambda: {"holder": True, "calls": [
             {k2: v for k2, v in c.items() if k2 != "_seq"} for c in calls], **detail()})
@@ -473,6 +488,7 @@ def run(ctx):
                 if ctx.mine():
                     n += 1
                     ctx.execute("holder", {"stack": s, "stale_traceback": stale, "extra": extra})
+                    ctx.execute("holder", {"stack": s, "stale_traceback": stale, "extra": extra, "tagged": True})
     ctx.note_space("%d stacks of depth <= 2 x an ErrorHolder with / without a stale 'traceback' detail and another "
                    "detail" % len(upto2), n)
     for stack in ("tbt", "e2o", "multi", "tagger"):
